@@ -1050,6 +1050,9 @@ def group_nearby_members(
     out = np.full(len(group_key), -1)
     for i in range(len(group_key)):
         key = group_key[i]
+        if key < 0:
+            # null key: the row belongs to no group and keeps the marker -1
+            continue
         current_value = values[i]
         if not seen[key]:
             seen[key] = True
